@@ -151,10 +151,19 @@ func (c *Ctx) collectFns() {
 		}
 	}
 	sort.Slice(c.AllFns, func(i, j int) bool { return c.AllFns[i].String() < c.AllFns[j].String() })
-	buildSites(c.AllFns)
+	// call sites and value uses also occur in the synthetic package initialisers (tables of function values)
+	scan := append([]*ssa.Function{}, c.AllFns...)
+	for _, sp := range c.spkgs {
+		if initFn := sp.Func("init"); initFn != nil && len(initFn.Blocks) > 0 && !seen[initFn] {
+			scan = append(scan, initFn)
+		} else if initFn != nil && len(initFn.Blocks) > 0 && initFn.Synthetic != "" {
+			scan = append(scan, initFn)
+		}
+	}
+	buildSites(scan)
 	gAddrTaken = map[*ssa.Function]bool{}
 	gInvoked = map[string]bool{}
-	for _, f := range c.AllFns {
+	for _, f := range scan {
 		for _, b := range f.Blocks {
 			for _, i := range b.Instrs {
 				cc := callCommon(i)
